@@ -438,7 +438,8 @@ def r142(ctx, rep, f, ev, cg, reach):
             r = ev.call_fn(p_, [Sym("A"), Sym("B")])
             if isinstance(r, Agg):
                 aggs.append(("return", r))
-            for o in ev.collect_ifs(p_, [Sym("A"), Sym("B")]):
+            recs_sum = ev.collect_ifs(p_, [Sym("A"), Sym("B")])
+            for o in recs_sum:
                 if "assign" in o and o["assign"][0] == "=" and "(" in o["assign"][2] and "=sym(Add(" in o["assign"][2]:
                     aggs.append((o["assign"][1], o["assign"][2]))
         except Unsupported as e:
@@ -446,6 +447,17 @@ def r142(ctx, rep, f, ev, cg, reach):
             continue
         bad = []
         nf = 0
+        summed = set()
+        # in-place form: self.f += other.f
+        for o in recs_sum:
+            if "assign" in o and o["assign"][0] == "AddAssign":
+                m = re.fullmatch(r"sym\(([AB])((?:\.\w+)+)\)", o["assign"][1])
+                m2 = re.fullmatch(r"sym\(([AB])((?:\.\w+)+)\)", o["assign"][2])
+                nf += 1
+                if not (m and m2 and m.group(1) != m2.group(1) and m.group(2) == m2.group(2) and not o["guard"]):
+                    bad.append("%s += %s%s" % (o["assign"][1], o["assign"][2], " under %s" % (o["guard"],) if o["guard"] else ""))
+                elif m:
+                    summed.add(m.group(2).split(".")[-1])
         for where_, a in aggs:
             txt = vkey(a) if not isinstance(a, str) else a
             for m in re.finditer(r"(\w+)=sym\(Add\(sym\(([AB])((?:\.\w+)*)\),sym\(([AB])((?:\.\w+)*)\)\)\)", txt):
@@ -453,10 +465,18 @@ def r142(ctx, rep, f, ev, cg, reach):
                 fld, r1, p1, r2, p2 = m.groups()
                 if not (r1 != r2 and p1 == p2 and p1.split(".")[-1] == fld):
                     bad.append("%s = %s%s + %s%s" % (fld, r1, p1, r2, p2))
+                else:
+                    summed.add(fld)
             # fields that are not a plain sum of two operands
             for m in re.finditer(r"(\w+)=(?!sym\(Add\(sym\([AB][\.\w]*\),sym\([AB][\.\w]*\)\)\))([^,()]*\([^=]*?)(?=,\w+=|\)$)", txt):
                 pass
         nsum += 1
+        # in the in-place form every field of the struct has to be added (a forgotten field keeps the left operand's value)
+        adt_ = f.adts.get(p_[:-len("::sum")])
+        if adt_ and adt_["kind"] == "struct" and any(o.get("assign", ("",))[0] == "AddAssign" for o in recs_sum):
+            missing = [fd["name"] for fd in adt_["variants"][0]["fields"] if fd["name"] not in summed]
+            if missing:
+                bad.append("fields never added: %s" % missing)
         rep.check(not bad and nf > 0, "R14.2", "R14.2|sum|%s" % p_.split("::")[-2], "%s::sum adds same-named fields of both operands (%d fields)" % (p_.split("::")[-2], nf), p_,
                   "%s::sum mixes fields: %s" % (p_.split("::")[-2], bad or "no field-wise sum recognised"))
     rep.floor("R14.2-sums", nsum, 2, "field-wise sum functions of the statistics structs")
@@ -541,6 +561,19 @@ def r143(ctx, rep, f, ev, cg, reach):
     rep.check(len(cs) == 1 and hb and tuple(cs[0]["guard"]) == tuple(hb[0]["guard"]), "R14.3", "R14.3|system-specific|per-rdh", "system specific statistics are collected for every analysed RDH", W)
     # the loop runs over all RDHs of the batch
     b = Body(inline_fn(f, clo, lambda c: c.startswith("fastpasta::analyze::lib::") and "{closure" not in c))
+    if cs_:
+        # a batch-local accumulator must be created afresh for every batch: its initialisation lies inside the receive loop
+        fresh, why = [], []
+        for bb, t, cal, c in b.calls():
+            if cal and cal.endswith("TriggerStats::collect_stats"):
+                o = b.origin(t["args"][0])
+                while isinstance(o, tuple) and o and o[0] in ("ref", "proj"):
+                    o = o[1]
+                ok_ = isinstance(o, tuple) and o and o[0] == "call" and isinstance(o[3], int) and b.on_cycle(o[3]) and any(x in (o[1] or "") for x in ("::default", "::new"))
+                fresh.append(ok_)
+                why.append(show_origin(o)[:80])
+        rep.check(bool(fresh) and all(fresh), "R14.3", "R14.3|trigger|fresh-per-batch", "the batch-local TriggerStats is created inside the receive loop (one fresh accumulator per batch)", W,
+                  "the TriggerStats that is sent once per batch is not initialised inside the receive loop (%s): every batch re-sends the counts of all earlier batches" % why)
     src = [show_origin(b.origin(t["args"][0])) for bb, t, cal, c in b.calls() if cal and cal.endswith("IntoIterator>::into_iter")]
     chain = [cal.split("::")[-1] for bb, t, cal, c in b.calls() if cal and ("iter::" in cal or "slice::" in cal) and "Iterator>::next" not in cal]
     rep.check(any("rdh_slice" in s and "iter(" in s for s in src) and not any(x in chain for x in ("skip", "take", "step_by", "filter", "rev")), "R14.3", "R14.3|all-rdhs",
